@@ -137,6 +137,8 @@ def run_history(fl: Fleet, hist, with_keys=True, stats=None, key_table=None):
     live = [set() for _ in fl.workers]
     blobs: dict = {}           # name -> (bytes, source canon, source key|None)
     info: dict = {}            # handle -> info dict from the worker
+    tainted: set = set()       # reflective mutants and what derives from them
+    blob_tainted: dict = {}
     if stats is None:
         stats = {}
     if key_table is None:
@@ -199,6 +201,8 @@ def run_history(fl: Fleet, hist, with_keys=True, stats=None, key_table=None):
                                  "op_index": idx, "detail": str(r["leaks"][:5])})
                 info[op["hid"]] = r
                 live[w].add(op["hid"])
+                if kind == "mutate" or op["src"] in tainted:
+                    tainted.add(op["hid"])
             elif kind == "hash":
                 if op["hid"] not in live[w]:
                     continue
@@ -235,6 +239,7 @@ def run_history(fl: Fleet, hist, with_keys=True, stats=None, key_table=None):
                 key = wk.call("key", hid=op["hid"]) if with_keys else None
                 blobs[op["blob"]] = (blob, info[op["hid"]]["canon_content"], key,
                                      fl.configs[w]["hashseed"])
+                blob_tainted[op["blob"]] = op["hid"] in tainted
                 bump("pickles")
             elif kind == "crash":
                 fl.restart(w, op["config"])
@@ -244,9 +249,12 @@ def run_history(fl: Fleet, hist, with_keys=True, stats=None, key_table=None):
                 if op["blob"] not in blobs:
                     continue
                 blob, src_canon, src_key, src_seed = blobs[op["blob"]]
-                r = wk.call("unpickle", hid_new=op["hid"], blob=blob)
+                r = wk.call("unpickle", hid_new=op["hid"], blob=blob,
+                            tainted=bool(blob_tainted.get(op["blob"])))
                 info[op["hid"]] = r
                 live[w].add(op["hid"])
+                if blob_tainted.get(op["blob"]):
+                    tainted.add(op["hid"])
                 bump("unpickles")
                 if fl.configs[w]["hashseed"] != src_seed:
                     bump("unpickles_under_another_hash_seed")
@@ -287,8 +295,16 @@ def run_history(fl: Fleet, hist, with_keys=True, stats=None, key_table=None):
                             note_key(w, h, key, idx)
             bump("ops")
         except fleet.WorkerError as e:
-            viol.append({"class": "HARNESS:worker-exception", "op_index": idx,
-                         "detail": f"{kind}: {str(e)[-600:]}"})
+            # an operation on an (ill-formed) reflective mutant or on something
+            # derived from one may raise: that says nothing about pytato
+            involved = [op.get("hid"), op.get("src")]
+            if any(h in tainted for h in involved if h) or \
+                    (kind == "unpickle" and blob_tainted.get(op.get("blob"))):
+                bump("ops_failed_on_ill_formed_mutant")
+            else:
+                viol.append({"class": "HARNESS:worker-exception",
+                             "op_index": idx,
+                             "detail": f"{kind}: {str(e)[-600:]}"})
     return viol
 
 # }}}
